@@ -262,6 +262,21 @@ func (th IntTheory) Bin(x side, op token.Token, a, b T, m MT) T {
 		r := vc.fresh("or", sortInt)
 		if !m.Signed {
 			vc.assume(mkAnd(mkCmp("<=", a, r), mkCmp("<=", b, r), mkCmp("<=", r, mkAdd(a, b)), mkCmp("<=", r, intT(m.Max()))))
+			// when one operand is statically narrow (w bits) and the other happens to be a multiple of
+			// 2^w, the bit ranges are disjoint and OR is addition
+			narrow, wide := a, b
+			in, iw := th.info(a, m), th.info(b, m)
+			if iw.width < in.width {
+				narrow, wide = b, a
+				in = iw
+			}
+			if in.width <= 16 {
+				q := vc.fresh("orq", sortInt)
+				low := vc.fresh("orl", sortInt)
+				p := intT(pow2(in.width))
+				vc.assume(mkAnd(mkEq(wide, mkAdd(mkMul(p, q), low)), mkCmp("<=", intT64(0), low), mkCmp("<", low, p), mkCmp("<=", intT64(0), q)))
+				vc.assume(mkImp(mkEq(low, intT64(0)), mkEq(r, mkAdd(wide, narrow))))
+			}
 		} else {
 			vc.assume(inRange(r, m))
 			vc.assume(mkEq(mkEq(r, intT64(0)), mkAnd(mkEq(a, intT64(0)), mkEq(b, intT64(0)))))
